@@ -83,6 +83,10 @@ type taskCompletion struct {
 type restartNode struct {
 	pid      *PID
 	children []*restartNode
+	// watched are the local actors this actor was watching when the restart began: the shutdown
+	// phase releases them (freeWatchees), and a restart is not an UnWatch, so they are watched again
+	// once the actor is back in the tree
+	watched []*PID
 }
 
 // PID is the sole actor reference in GoAkt. It is location-transparent:
@@ -3560,7 +3564,7 @@ func (pid *PID) buildChildOptions(config *spawnConfig) []pidOption {
 }
 
 func buildRestartSubtree(root *PID, tree *tree) *restartNode {
-	rootNode := &restartNode{pid: root}
+	rootNode := &restartNode{pid: root, watched: tree.watchees(root)}
 	descendants := tree.descendants(root)
 	if len(descendants) == 0 {
 		return rootNode
@@ -3569,7 +3573,7 @@ func buildRestartSubtree(root *PID, tree *tree) *restartNode {
 	nodes := make(map[string]*restartNode, len(descendants))
 	for _, descendant := range descendants {
 		if descendant.IsRunning() || descendant.IsSuspended() {
-			nodes[descendant.ID()] = &restartNode{pid: descendant}
+			nodes[descendant.ID()] = &restartNode{pid: descendant, watched: tree.watchees(descendant)}
 		}
 	}
 	if len(nodes) == 0 {
@@ -3645,6 +3649,11 @@ func restartSubtree(ctx context.Context, node *restartNode, parent *PID, tree *t
 		pid.setState(stoppingState, true)
 		pid.setState(runningState, false)
 		return err
+	}
+
+	for _, watchee := range node.watched {
+		// no-op for watchees that are gone in the meantime
+		tree.addWatcher(watchee, pid)
 	}
 
 	eg, gctx := errgroup.WithContext(ctx)
